@@ -4,7 +4,7 @@ import random
 
 from harness import lib_graph as G
 
-PROFILES = ["mixed", "o2m", "tree", "m2m", "cycle", "inherit", "oneway", "oneway", "graph", "graph", "unit", "unit", "peer", "peer", "owner", "owner"]
+PROFILES = ["mixed", "o2m", "tree", "m2m", "cycle", "inherit", "oneway", "oneway", "graph", "graph", "unit", "unit", "peer", "peer", "owner", "owner", "composite", "composite"]
 
 
 def first_failure(res):
